@@ -13,7 +13,8 @@ use std::sync::{Arc, Mutex};
 use serde_json::{json, Value};
 
 use super::common::*;
-use crate::hist::{self, Driver, Op, World};
+use crate::asm;
+use crate::hist::{self, Ctx, Driver, Enc, Op, Target, World};
 use crate::obs::{self, Obs, ObsMode, Universe};
 use crate::report::{Spec, WorkerReport};
 use crate::rng::Rng;
@@ -285,6 +286,16 @@ fn one_victim(ctx: &WorkerCtx, rep: &mut WorkerReport, case_seed: u64, kind: &st
     // committed history
     let pre = if kind == "reorg" && ctx.shard % 7 == 5 { rng.range(5, 9) } else { rng.range(2, 9) };
     grow(&mut w, &mut d, pre, CommitPolicy::Random(40), &mut rng);
+    // (for the big-commit victim below: the contract is part of the committed history, so that it
+    // still exists after the recovery reorg and its summing view can be asked)
+    let big_commit = kind == "commit" && (ctx.shard % 7 == 2 || rng.chance(1, 5));
+    let mut range_store: Option<String> = None;
+    if big_commit && d.ntx == 0 {
+        let b = w.block_ctx(&d);
+        let dep = d.exec(Op::Deploy { pk: w.pks[0].clone(), data: hist::hx(&asm::rangestore_init()), enc: Enc::Hex, ctx: Ctx { ts: b.0, hash: b.1.clone(), idx: 0 }, iid: w.iid(), len: 1_000_000, txid: w.txid() });
+        d.exec(Op::Finalise { ts: b.0, hash: b.1, count: 1 });
+        range_store = hist::created_address(&dep);
+    }
     d.exec(Op::Commit);
     let mut after_commit_obs = None;
     // uncommitted tail
@@ -310,6 +321,16 @@ fn one_victim(ctx: &WorkerCtx, rep: &mut WorkerReport, case_seed: u64, kind: &st
         let n = rng.range(1030, 1600);
         d.exec(Op::Mine { n, ts: w.ts });
         rep.count("victims_with_over_1024_uncommitted_blocks", 1);
+    }
+    let mut extra_calls: Vec<(String, String)> = Vec::new();
+    if let (Some(store), true) = (range_store.clone(), d.ntx == 0) {
+        let n = rng.range(1100, 2300);
+        let b = w.block_ctx(&d);
+        d.exec(Op::Call { pk: w.pks[0].clone(), target: Target::Addr(store.clone()), data: Some(hist::hx(&asm::rangestore_call(false, 0, n, 7))), enc: Enc::Hex, ctx: Ctx { ts: b.0, hash: b.1.clone(), idx: 0 }, iid: w.iid(), len: 1_000_000, txid: w.txid() });
+        d.exec(Op::Finalise { ts: b.0, hash: b.1, count: 1 });
+        extra_calls.push((store.clone(), hist::hx(&asm::rangestore_call(true, 0, n, 0))));
+        extra_calls.push((store, hist::hx(&asm::rangestore_call(true, n / 2, n, 0))));
+        rep.count("commit_victims_with_over_1000_dirty_keys", 1);
     }
     let hc = d.committed;
     let victim = match kind {
@@ -337,6 +358,9 @@ fn one_victim(ctx: &WorkerCtx, rep: &mut WorkerReport, case_seed: u64, kind: &st
         _ => i64::MAX,
     };
     let mut universe_ = universe(&[&d.log], d.height.max(0) as u64 + 1, Some(&w));
+    for c in &extra_calls {
+        universe_.calls.insert(c.clone());
+    }
     if let Some((u, _)) = &after_commit_obs {
         universe_ = u.clone();
     }
@@ -389,7 +413,8 @@ fn one_victim(ctx: &WorkerCtx, rep: &mut WorkerReport, case_seed: u64, kind: &st
         by_kind.entry(wname.as_str()).or_default().push(i);
     }
     for (label, idxs) in &by_kind {
-        if idxs.len() >= 2 && (ctx.thorough() || !label.starts_with("cached.") || rng.chance(1, 5)) {
+        // (a victim with a thousand dirty keys is there for the sake of its later writes: every kind)
+        if idxs.len() >= 2 && (ctx.thorough() || !label.starts_with("cached.") || !extra_calls.is_empty() || rng.chance(1, 5)) {
             let j = 1 + rng.below(idxs.len() as u64 - 1) as usize;
             points.push(idxs[j] as i64);
             if !label.starts_with("cached.") {
